@@ -2,6 +2,8 @@ import Falcon.Lemmas.CodecTotal
 import Falcon.Props.C02
 import Falcon.Props.C06
 import Falcon.Props.C12
+import Falcon.Lemmas.SkTotal
+import Falcon.Lemmas.PublicKey
 
 /-!
 # C03 — decoders and verify are total: untrusted bytes never cause a panic
@@ -121,6 +123,33 @@ theorem verify_bytes_total (chk : Bool) (N : Nat) (hN : N = 512 ∨ N = 1024) (m
 theorem batch_inverse_total (chk : Bool) (xs : List Nat) (hx : ∀ x ∈ xs, x < Zq.q) :
     ∃ r, Zq.batchInv chk xs = .ok r ∧ r.length = xs.length :=
   ⟨_, (C12.batch_inverse_exact chk xs hx).1, by simp⟩
+
+/-- **the integer steps of `SecretKey::from_bytes` after the field decoding are total**: for both variants and every
+    byte string the decoder accepts — whether or not f is invertible modulo q — the recomputation of the fourth
+    polynomial (three forward transforms, `batch_inverse_or_zero`, two pointwise products, the inverse transform)
+    never panics, in both build modes -/
+theorem secret_key_recompute_G_total (chk : Bool) (N d : Nat) (hN : (N = 512 ∧ d = 9) ∨ (N = 1024 ∧ d = 10))
+    (b : List Nat) (hb : ∀ x ∈ b, x < 256) (f g cF : List Nat)
+    (hacc : KeyCodec.skFromBytes N b = .ok (.ok (f, g, cF))) :
+    ∃ finv cg, Zq.batchInv chk (Ntt.ntt d f) = .ok finv ∧
+      Ntt.intt d (Ntt.hadamard (Ntt.hadamard (Ntt.ntt d g) finv) (Ntt.ntt d cF)) = .ok cg ∧ cg.length = N := by
+  obtain ⟨_, lf, lg, lF⟩ := C06.secret_key_strict chk N b hb f g cF hacc
+  obtain ⟨cf, _, _⟩ := KeyCodec.sk_decoded_canonical N b f g cF hacc
+  have hNd : N = 2 ^ d ∧ d ≤ 10 := by rcases hN with ⟨rfl, rfl⟩ | ⟨rfl, rfl⟩ <;> exact ⟨by decide, by decide⟩
+  obtain ⟨hNd, hd⟩ := hNd
+  have nf := Ntt.ntt_lt d 1 f cf (by rw [lf, hNd])
+  obtain ⟨finv, hfi, hfl⟩ := batch_inverse_total chk (Ntt.ntt d f) (fun x hx => by have := nf x hx; simpa [Zq.q, Gen.q] using this)
+  have l1 : (Ntt.ntt d f).length = 2 ^ d := Ntt.nttRec_length d 1 f (by rw [lf, hNd])
+  have l2 : (Ntt.ntt d g).length = 2 ^ d := Ntt.nttRec_length d 1 g (by rw [lg, hNd])
+  have l3 : (Ntt.ntt d cF).length = 2 ^ d := Ntt.nttRec_length d 1 cF (by rw [lF, hNd])
+  have lw : (Ntt.hadamard (Ntt.hadamard (Ntt.ntt d g) finv) (Ntt.ntt d cF)).length = 2 ^ d := by
+    simp [Ntt.hadamard, List.length_zipWith, l1, l2, l3, hfl]
+  obtain ⟨w, hw1, _, _⟩ := Ntt.ninv_spec d hd
+  refine ⟨finv, (Ntt.inttRec d 1 (Ntt.hadamard (Ntt.hadamard (Ntt.ntt d g) finv) (Ntt.ntt d cF))).map (Ntt.mulq · w), hfi,
+    by simp only [Ntt.intt, lw, hw1], ?_⟩
+  rw [List.length_map]
+  have := Ntt.inttRec_length d 1 _ lw
+  rw [this, hNd]
 
 /-- non-vacuity: the former crash inputs (finding F1: a non-last coefficient starting 9 bits before the end;
     F2: 256-bit unary run with the sign bit) are plain rejections -/
